@@ -431,7 +431,74 @@ fn varying_input_battery(cfg: &Cfg, rep: &mut Report) {
   }
 }
 
+/// Operators that take an `FnMut`: a closure with state of its own (it numbers its calls) belongs
+/// to the subscription - clones of one operator value subscribed one after the other, or nested,
+/// each start with the closure as it was written, so all subscriptions produce the same output.
+fn stateful_closure_battery(rep: &mut Report) {
+  use std::cell::RefCell;
+  use std::rc::Rc;
+  macro_rules! twice {
+    ($name:expr, $build:expr) => {{
+      rep.evaluations += 1;
+      rep.count("operators_given_a_closure_with_state_of_its_own", 1);
+      rep.set("operators_covered", $name);
+      let outs: Vec<Rc<RefCell<Vec<String>>>> = (0..3).map(|_| Default::default()).collect();
+      let o = $build;
+      let clones = vec![o.clone(), o.clone(), o.clone()];
+      drop(o);
+      for (j, c) in clones.into_iter().enumerate() {
+        let (a, b) = (outs[j].clone(), outs[j].clone());
+        c.on_complete(move || b.borrow_mut().push("complete".into())).subscribe(move |v| a.borrow_mut().push(format!("{:?}", v)));
+      }
+      let first = outs[0].borrow().clone();
+      rep.events += first.len() as u64 * 3;
+      if outs.iter().any(|o| *o.borrow() != first) {
+        rep.violation(
+          "closure_state_shared",
+          &format!("{}[stateful closure]", $name),
+          &format!("closures:{}", $name),
+          json!({"subscriptions": outs.iter().map(|o| o.borrow().clone()).collect::<Vec<_>>()}),
+        );
+      } else {
+        rep.nontrivial.insert(hash64(&("closures", $name)));
+      }
+    }};
+  }
+  let src = || observable::from_iter(vec![1i64, 2, 3, 4]);
+  twice!("map", src().map({
+    let mut n = 0i64;
+    move |v| {
+      n += 1;
+      v * 10 + n
+    }
+  }));
+  twice!("filter_map", src().filter_map({
+    let mut n = 0i64;
+    move |v: i64| {
+      n += 1;
+      if n % 2 == 1 { Some(v + n) } else { None }
+    }
+  }));
+  twice!("take_while", src().take_while({
+    let mut n = 0;
+    move |_| {
+      n += 1;
+      n < 3
+    }
+  }));
+  twice!("skip_while", src().skip_while({
+    let mut n = 0;
+    move |_| {
+      n += 1;
+      n < 3
+    }
+  }));
+}
+
 pub fn run(cfg: &Cfg, rep: &mut Report) {
+  if cfg.shard == 0 && cfg.only_case.as_deref().map_or(true, |c| c.starts_with("closures:")) {
+    stateful_closure_battery(rep);
+  }
   if cfg.only_case.as_deref().map_or(true, |c| c.starts_with("varying:")) {
     varying_input_battery(cfg, rep);
   }
